@@ -85,32 +85,28 @@ Proof.
 Qed.
 Print Assumptions scrolled_back_view.
 
-(* --- clause 2: equality with the reference VT100 (Model/VT100Ref.v) on the subset of the property.
-       Stated in full and NOT proved: it is decided only by running the implementation, the extracted
-       emulator model and the extracted reference against each other (harness/props/c15.py: every
-       generated command list of the subset, plus the sequences of corpus/C15 that failed before the
-       fix: commits eed25b8..7c4256d).  [ambiguous] marks the points on which terminals of the VT100
-       family themselves differ (LF/RI with the last-column flag set, CUU/CUD across a margin of a
-       partial region); the statement stops before them. --- *)
-Definition vterm_refines_vt100_full : Prop :=
-  forall w h e cs, 1 <= w -> 1 <= h -> forallb cmd_ok cs = true -> unambiguous (vt_init w h) cs = true ->
-  exists s, run (init w h e) [Feed (enc_cmds cs)] = Ok s /\ agrees s (run_ref (vt_init w h) cs) = true.
-
-(* PROVED so far ([cmd_proved] lists the commands whose simulation lemma is done; it grows towards the full
-   statement): any command list over those commands, any sizes, any parameters below 2^4000 (int() refuses
-   more than 4300 digits and the emulator then falls back to the default, by design).  The proof: the parser
-   reads the decimal encoding back exactly (Proofs/VTermParse.v), each command preserves the relation R
-   between the two states (Proofs/VTermSim.v), induction over the list. *)
-Theorem vterm_refines_vt100_partial :
+(* --- clause 2: equality with the reference VT100 (Model/VT100Ref.v, written from the VT100 behaviour, not from
+       vterm.py) on the subset of the property: printable text with autowrap (incl. the last-column flag),
+       CR LF BS HT, CUP CUU CUD CUF CUB, EL ED, ICH DCH IL DL, DECSTBM, RI, the classic SGR renditions and
+       colours, DSR - any command list, any mixture, any terminal size, any parameters below 2^4000 (int()
+       refuses more than 4300 digits; the emulator then falls back to the default, by design).
+       [cmd_ok] bounds the parameter domains (printable 0x20-0x7E, EL/ED mode <= 2, classic SGR values, DSR 5/6);
+       [unambiguous] stops before the points on which terminals of the VT100 family themselves differ (LF / RI /
+       HT with the last-column flag set, CUU / CUD across a margin of a partial scrolling region).
+       After feeding the byte encoding of the commands the emulator's screen contents (characters and renditions),
+       cursor and scrolling region equal the reference's ([agrees]).  The feed may be chunked in any way
+       (chunking_irrelevant).  Proof: the parser reads the decimal encoding back exactly (Proofs/VTermParse.v),
+       every command preserves the relation R between the two states (Proofs/VTermSim.v), induction over the list.
+       The palette (38;5;n) and direct (38;2;r;g;b) colour forms are in both references but outside this theorem:
+       they are decided by the oracle only. --- *)
+Theorem vterm_refines_vt100 :
   forall w h e cs, 1 <= w -> 1 <= h ->
-  forallb cmd_proved cs = true -> forallb cmd_ok cs = true -> Forall cmd_small cs ->
-  unambiguous (vt_init w h) cs = true ->
+  forallb cmd_ok cs = true -> Forall cmd_small cs -> unambiguous (vt_init w h) cs = true ->
   exists s, run (init w h e) [Feed (enc_cmds cs)] = Ok s /\ agrees s (run_ref (vt_init w h) cs) = true.
-Proof. exact refines_partial. Qed.
-Print Assumptions vterm_refines_vt100_partial.
+Proof. exact refines_vt100. Qed.
+Print Assumptions vterm_refines_vt100.
 
-(* the formerly failing sequences, and a mixed one, now agree (closed computations; these are tests of the
-   two models against each other, not a proof of the statement above) *)
+(* the formerly failing sequences, and a mixed one, as closed computations (instances of the theorem above) *)
 Definition agree_on (w h : Z) (cs : list cmd) : bool :=
   unambiguous (vt_init w h) cs &&
   match run (init w h 1) [Feed (enc_cmds cs)] with
